@@ -639,7 +639,7 @@ func (w *tWorld) files() []tFile {
 }
 
 // rowID extracts the id of a marshaled row.
-func rowID(b []byte) (int, bool) {
+func tRowID(b []byte) (int, bool) {
 	var m struct {
 		ID *int `json:"id"`
 	}
